@@ -25,6 +25,8 @@ def spec():
                 "status": {"$ref": "#/components/schemas/Status"},
                 "level": {"$ref": "#/components/schemas/Level"},
                 "addresses": {"type": "array", "items": {"$ref": "#/components/schemas/Address"}},
+                # a model three levels down in the field type (list of lists), with a renamed property (zip-code)
+                "grid": {"type": "array", "items": {"type": "array", "items": {"$ref": "#/components/schemas/Address"}}},
             },
         },
         "Stamps": {
